@@ -129,8 +129,19 @@ type query struct {
 	Count map[string]int `json:"count,omitempty"`
 }
 
+type procRec struct {
+	App   string `json:"app"`
+	Entry string `json:"entry"`
+	Node  string `json:"node"`
+	Ident string `json:"ident"`
+	Count int    `json:"count"`
+	Acc   bool   `json:"names_accepted"`
+	OK    bool   `json:"created"`
+}
+
 type scenario struct {
 	Adds    []add
+	Procs   []procRec
 	Queries []query
 }
 
@@ -150,6 +161,9 @@ func (e *env) run(t *testing.T, sc *scenario) {
 			nodes[q.Node] = true
 		}
 	}
+	for _, p := range sc.Procs {
+		nodes[p.Node] = true
+	}
 	for n := range nodes {
 		// store level: node names are not validated here (Calcium.AddNode validates them)
 		if _, err := e.st.AddNode(ctx, &types.AddNodeOptions{Nodename: n, Endpoint: "mock://x", Podname: "p"}); err != nil {
@@ -161,6 +175,12 @@ func (e *env) run(t *testing.T, sc *scenario) {
 		a.Acc = validateDeploy(a.App, a.Entry) == 0 && validateNode(a.Node) == 0
 		w := &types.Workload{ID: a.ID, Name: utils.MakeWorkloadName(a.App, a.Entry, a.Ident), Nodename: a.Node, Podname: "p"}
 		a.OK = e.st.AddWorkload(ctx, w, nil) == nil
+	}
+	// deployments in flight: processing markers (CreateProcessing without the matching delete)
+	for i := range sc.Procs {
+		p := &sc.Procs[i]
+		p.Acc = validateDeploy(p.App, p.Entry) == 0 && validateNode(p.Node) == 0
+		p.OK = e.st.CreateProcessing(ctx, &types.Processing{Appname: p.App, Entryname: p.Entry, Nodename: p.Node, Ident: p.Ident}, p.Count) == nil
 	}
 	for i := range sc.Queries {
 		q := &sc.Queries[i]
@@ -343,11 +363,15 @@ func (sc *scenario) term(backend string) string {
 	if backend == "redis" {
 		b = "Redis"
 	}
-	return fmt.Sprintf("(mkCase %s %s %s)", b, vh.List(adds), vh.List(qs))
+	ps := make([]string, len(sc.Procs))
+	for i, p := range sc.Procs {
+		ps[i] = fmt.Sprintf("(mkPc %s %s %s %s %d%%N %s %s)", cstr(p.App), cstr(p.Entry), cstr(p.Node), cstr(p.Ident), p.Count, vh.Bool(p.Acc), vh.Bool(p.OK))
+	}
+	return fmt.Sprintf("(mkCase %s %s %s %s)", b, vh.List(adds), vh.List(ps), vh.List(qs))
 }
 
-var safeNames = []string{"a", "b", "ab", "a.b", "web", "a-1", "A", "a_b", "x"}
-var safeEntries = []string{"a", "b", "c", "web", "e.1", "E", "n1"}
+var safeNames = []string{"a", "b", "ab", "a.b", "web", "a-1", "A", "a_b", "x", "app", "app2", "web2"}
+var safeEntries = []string{"a", "b", "c", "web", "e.1", "E", "n1", "web2", "web-canary", "ab"}
 var slashNames = []string{"a/b", "b/c", ".", "..", "/a", "a/", "a//b", "a/.", "./a", "a/../b"}
 var globNames = []string{"a*", "a?", "*", "?b", "**"}
 var nodeNames = []string{"n1", "n2", "node-3", "a", "b"}
@@ -355,7 +379,7 @@ var nodeNames = []string{"n1", "n2", "node-3", "a", "b"}
 func hasAny(s, chars string) bool { return strings.ContainsAny(s, chars) }
 
 // allQueries: every filter combination over the names present, plus absent names
-func allQueries(adds []add, extraApps, extraEntries []string) []query {
+func allQueries(adds []add, procs []procRec, extraApps, extraEntries []string) []query {
 	seen := map[string]bool{}
 	var qs []query
 	push := func(q query) {
@@ -369,6 +393,10 @@ func allQueries(adds []add, extraApps, extraEntries []string) []query {
 	apps, entries, nodes := append([]string{}, extraApps...), append([]string{}, extraEntries...), []string{"n2"}
 	for _, a := range adds {
 		apps, entries, nodes = append(apps, a.App), append(entries, a.Entry), append(nodes, a.Node)
+	}
+	for _, p := range procs {
+		apps, entries, nodes = append(apps, p.App), append(entries, p.Entry), append(nodes, p.Node)
+		push(query{Kind: "status", App: p.App, Entry: p.Entry})
 	}
 	for _, a := range adds {
 		push(query{Kind: "list", App: a.App})
@@ -431,6 +459,61 @@ func storeCorpus() [][]add {
 	}
 }
 
+type procCase struct {
+	adds  []add
+	procs []procRec
+}
+
+func procCorpus() []procCase {
+	mk := func(q [][4]string) []procRec {
+		var out []procRec
+		for i, x := range q {
+			out = append(out, procRec{App: x[0], Entry: x[1], Node: x[2], Ident: fmt.Sprintf("op%04x", i), Count: 1 + (i*3)%5})
+		}
+		return out
+	}
+	return []procCase{
+		// in-flight deployments of entrypoints whose names extend the queried one (web / web2 / web-canary)
+		{mkAdds([][3]string{{"app", "web", "n1"}, {"app", "web", "n1"}, {"app", "web2", "n1"}, {"app", "web", "n2"}}),
+			mk([][4]string{{"app", "web", "n1"}, {"app", "web2", "n1"}, {"app", "web-canary", "n1"}, {"app", "web2", "n2"}, {"app2", "web", "n1"}})},
+		// only markers, no workloads; the same node under several entrypoints
+		{nil, mk([][4]string{{"app", "web", "n1"}, {"app", "web", "n1"}, {"app", "web2", "n1"}, {"app2", "web", "n1"}, {"ap", "web", "n1"}})},
+		{mkAdds([][3]string{{"a", "b", "n1"}, {"ab", "b", "n1"}}), mk([][4]string{{"a", "b", "n1"}, {"a", "bc", "n1"}, {"ab", "b", "n2"}, {"a", "b", "n2"}})},
+	}
+}
+
+func randomProcs(r *vh.Run, adds []add) []procRec {
+	var apps, entries []string
+	for _, a := range adds {
+		apps, entries = append(apps, a.App), append(entries, a.Entry)
+	}
+	// names that extend or shorten the ones in use
+	ext := func(l []string) []string {
+		out := append([]string{}, l...)
+		for _, x := range l {
+			out = append(out, x+"2", x+"-canary")
+			if len(x) > 1 {
+				out = append(out, x[:len(x)-1])
+			}
+		}
+		return out
+	}
+	apps, entries = ext(apps), ext(entries)
+	n := 1 + r.Rng.Intn(5)
+	var out []procRec
+	for i := 0; i < n; i++ {
+		out = append(out, procRec{App: pick(r, apps), Entry: pick(r, entries), Node: pick(r, nodeNames[:3]), Ident: fmt.Sprintf("op%04x", i), Count: 1 + r.Rng.Intn(4)})
+	}
+	return out
+}
+
+func imin(a, b int) int {
+	if a < b {
+		return a
+	}
+	return b
+}
+
 func pick(r *vh.Run, l []string) string { return l[r.Rng.Intn(len(l))] }
 
 func randomAdds(r *vh.Run, mode int) []add {
@@ -486,9 +569,9 @@ func TestC24(t *testing.T) {
 	r := vh.New(t, "C24", "store")
 	r.Coq("From Verif Require Import Names.Model.", "Model.case", "Model.agree", "Model.ok")
 	envs := newEnvs(t)
-	emit := func(e *env, adds []add, kind string) {
-		sc := &scenario{Adds: append([]add{}, adds...)}
-		sc.Queries = allQueries(sc.Adds, []string{"a", "zz"}, []string{"b"})
+	emit := func(e *env, adds []add, procs []procRec, kind string) {
+		sc := &scenario{Adds: append([]add{}, adds...), Procs: append([]procRec{}, procs...)}
+		sc.Queries = allQueries(sc.Adds, sc.Procs, []string{"a", "zz"}, []string{"b"})
 		e.run(t, sc)
 		if e.name == "etcd" {
 			e.streams(t, sc, 4)
@@ -501,18 +584,27 @@ func TestC24(t *testing.T) {
 				accepted = false
 			}
 		}
+		for _, p := range sc.Procs {
+			if !p.Acc {
+				accepted = false
+			}
+		}
+		r.Count(fmt.Sprintf("processing_markers=%d", imin(len(sc.Procs), 4)))
 		r.Count("backend=" + e.name)
 		r.Count(fmt.Sprintf("all_names_accepted=%v", accepted))
 		r.Count(fmt.Sprintf("glob_meta=%v", glob))
 		r.Count(fmt.Sprintf("workloads=%d", len(sc.Adds)))
 		r.Count(fmt.Sprintf("queries=%d", (len(sc.Queries)/10)*10))
-		r.Add(sc.term(e.name), map[string]any{"backend": e.name, "kind": kind, "workloads": sc.Adds, "queries": sc.Queries},
+		r.Add(sc.term(e.name), map[string]any{"backend": e.name, "kind": kind, "workloads": sc.Adds, "processing": sc.Procs, "queries": sc.Queries},
 			map[string]any{"backend": e.name, "glob_meta_in_names": glob, "slash_or_dot_names": slash, "underline_in_entry": underline, "all_names_accepted": accepted},
 			accepted && len(sc.Adds) > 1)
 	}
 	for _, e := range envs {
 		for _, adds := range storeCorpus() {
-			emit(e, adds, "corpus")
+			emit(e, adds, nil, "corpus")
+		}
+		for _, pc := range procCorpus() {
+			emit(e, pc.adds, pc.procs, "corpus")
 		}
 	}
 	n := r.N(50, 1000)
@@ -525,8 +617,12 @@ func TestC24(t *testing.T) {
 			mode = 2
 		}
 		adds := randomAdds(r, mode)
+		var procs []procRec
+		if i%2 == 0 { // deployments in flight under names related to the workloads' names
+			procs = randomProcs(r, adds)
+		}
 		for _, e := range envs {
-			emit(e, adds, "random")
+			emit(e, adds, procs, "random")
 		}
 	}
 	r.Finish("corpus (prefix-related plain names, names with '_', the collisions behind the repaired validation, glob metacharacters) then random scenarios of 2-8 workloads over few distinct names (70% plain, 20% with '/' or dot names, 10% with '*'/'?'), each on the real etcd store (embedded cluster) and the real redis store (miniredis): AddWorkload, then ListWorkloads for every filter combination over present and absent names and GetDeployStatus for every (app, entry) pair; non-trivial = all names accepted by validation and at least 2 workloads")
